@@ -279,7 +279,7 @@ def run_wild(ctx):
     n-th expression equal those of the reference (which has no memory); operands are real Python values of every kind"""
     import warnings
     warnings.simplefilter("ignore", SyntaxWarning)
-    g = XR.RGen(ctx.rng)
+    g = XR.RGen(ctx.rng, pert=True)
     envs = {}
     n = ctx.size(1500, 30000)
     shown = 0
@@ -338,6 +338,7 @@ def run_histories(ctx):
     that a fresh environment of the same configuration gives for that template alone."""
     import jinja2
     g = X.EGen(ctx.rng, const_rich=True, arith=True, filters=False)
+    g.pert = True
     sync_kinds = [k for k in ENV_KINDS if k != "async"]
 
     class MemCache(jinja2.BytecodeCache):
@@ -438,6 +439,7 @@ def run(ctx):
     extra = ctx.size(900, 20000)
     g1 = X.EGen(ctx.rng, arith=True, filters=False)
     g2 = X.EGen(ctx.rng, const_rich=True, arith=True, filters=False)
+    g1.pert = g2.pert = True            # hook results are value + 1000: exponents and repetition counts grow with them
     fixed = [("B", "add", ("C", 1), ("B", "mul", ("C", 2), ("C", 3))), ("U", "neg", ("C", 5)), ("U", "neg", ("U", "pos", ("N", "i0"))),
              ("B", "pow", ("B", "pow", ("C", 2), ("C", 3)), ("C", 2)), ("B", "sub", ("B", "floordiv", ("C", 7), ("C", 2)), ("B", "mod", ("C", 7), ("C", 2))),
              ("B", "add", ("C", "a"), ("C", "b")), ("B", "mul", ("C", "ab"), ("C", 2)), ("?", ("C", True), ("B", "add", ("C", 1), ("C", 1)), ("B", "sub", ("C", 1), ("C", 1))),
@@ -473,7 +475,7 @@ def run(ctx):
         o = outs[3 * i:3 * i + 3]
         if any(x.startswith("BAD") for x in o):
             raise RuntimeError("driver rejected: " + repr(o))
-        one_case(ctx, e, ds, ib, iu, pos, *o)
+        X.guarded(ctx, one_case, ctx, e, ds, ib, iu, pos, *o)
     run_wild(ctx)
     run_histories(ctx)
     ctx.extra["subsets_covered"] = len({(tuple(ib), tuple(iu)) for _, _, ib, iu, _ in cases})
